@@ -57,8 +57,13 @@ func Parse(raw *Raw) ([]*Converter, error) {
 		converters = append(converters, converter)
 	}
 
-	sort.Slice(converters, func(i, j int) bool {
-		return converters[i].Name < converters[j].Name
+	sort.SliceStable(converters, func(i, j int) bool {
+		if converters[i].Name != converters[j].Name {
+			return converters[i].Name < converters[j].Name
+		}
+		// equal names (e.g. the same interface name in several packages): do not depend on the order of the
+		// package patterns; converters of one package keep their declaration order
+		return converters[i].Package < converters[j].Package
 	})
 
 	return converters, nil
